@@ -394,7 +394,7 @@ def r05_3(ctx, prog, crate):
                       "%s division by `%s` in `%s` has no guard against a zero divisor (no samples / zero sample size): "
                       "%s" % (ty, desc, b.path, "integer division panics" if ty != "f64" else "0.0/0.0 prints NaN"), where,
                       detail={"fn": b.path, "divisor": desc, "discharged_by": how})
-    ctx.anchor("R05.3", "divisions reachable from compute_stats", n, 25)
+    ctx.anchor("R05.3", "divisions reachable from compute_stats", n, 10)
     # checked_div is used for the other two integer divisions (they do not appear as Div at all)
     cd = [c for b in bodies for c in b.live_calls() if c.callee == "core::num::checked_div"]
     ctx.anchor("R05.3", "checked_div sites", cd, 2)
@@ -581,7 +581,21 @@ def r05_4(ctx, prog, crate):
                 continue
             ctx.check((b.path, kind) in PANIC_EXCEPTIONS, "R05.4", [b.path, kind],
                       "`%s` (reachable from compute_stats) has a panic edge: %s" % (b.path, kind), b.where(i))
-    ctx.anchor("R05.4", "terminators examined", n, 200)
+    ctx.anchor("R05.4", "terminators examined", n, 80)
+    # indirect calls: a closure of this very function tree handed around as `&dyn Fn` / `impl Fn` (every closure defined in the
+    # tree is examined above) is fine; a callable that comes from `self`, a static or outside the tree is not analysable
+    def local_callable(c):
+        recv = c.args[0] if (c.is_fn_trait_call and c.args) else c.func
+        srcs = c.body.prov.op_src(recv) if recv is not None else set()
+        if not srcs or c.body not in bodies:
+            return False
+        for z in srcs:
+            if z.kind == "static" or (z.kind in ("param", "upvar") and z.label().split(":", 1)[1].split(".")[0] == "self"):
+                return False
+            if z.kind == "param" and c.body.kind != "Closure":
+                return False        # a callable parameter of compute_stats itself / of a named function: comes from outside
+        return True
+    ind = [c for c in ind if not local_callable(c)]
     ctx.check(not ind, "R05.4", ["no-indirect-calls"], "indirect calls in the statistics code: %s" % [(c.body.path, c.name) for c in ind], None)
 
 
@@ -778,6 +792,50 @@ def r05_10(ctx, prog, crate):
     ctx.anchor("R05.10", "per-iteration counts built from per-input totals", n, 1)
 
 
+def r05_12(ctx, prog, crate):
+    """Averages are taken over the samples they describe: in compute_stats (and its closures) no length that ends up as a
+    divisor is the length of a *filtered* collection - a list built through filter / filter_map / flatten / take_while and
+    the like holds only the samples that happen to have a record (the allocation map is sparse), so dividing by its length
+    averages over fewer samples than share the median or were recorded."""
+    root = prog.body(SCOPE_ROOT, crate)
+    if not ctx.anchor("R05.12", "compute_stats", 1 if root else 0, 1):
+        return
+    FILTERS = ("filter", "filter_map", "flatten", "flat_map", "take_while", "skip_while", "map_while", "dedup", "retain", "skip", "take", "step_by")
+    n = 0
+    for b in prog.closure_tree(root):
+        lens = [c for c in b.live_calls() if c.callee.rsplit("::", 1)[-1] == "len" and c.callee.startswith(("core::slice::", "std::vec::Vec::", "std::collections::"))]
+        divs = [(bi, s) for bi, si, s in b.stmts() if s["k"] == "assign" and s["rv"]["k"] == "binop" and s["rv"]["op"] in ("Div", "Rem")] + \
+            [(c.bb, {"rv": {"b": c.args[1]}}) for c in b.live_calls() if c.callee.rsplit("::", 1)[-1] in ("checked_div", "div_euclid", "wrapping_div") and len(c.args) == 2]
+        for c in lens:
+            feeds = any(any(z.kind == "call" and z.b == c.bb and z.a == c.callee for z in b.prov.op_src(d["rv"]["b"])) for bi, d in divs)
+            if not feeds:
+                continue
+            n += 1
+            recv = set(b.prov.op_src(c.args[0]))
+            # a captured collection: follow the capture into the enclosing function(s)
+            cur, srcs_ = b, set(recv)
+            for _ in range(3):
+                ups = {z.a.lstrip("*").split(".")[0] for z in srcs_ if z.kind == "upvar"}
+                if not ups or cur.kind != "Closure":
+                    break
+                nxt = set()
+                par = None
+                for u in ups:
+                    cp = prog.capture_operand(cur, u)
+                    if cp:
+                        par = cp[0]
+                        nxt |= set(cp[0].prov.op_src(cp[1]))
+                if par is None:
+                    break
+                recv |= nxt
+                cur, srcs_ = par, nxt
+            bad = sorted({z.a for z in recv if z.kind == "call" and z.a.rsplit("::", 1)[-1] in FILTERS})
+            ctx.check(not bad, "R05.12", [b.path.replace(root.path, "compute_stats"), "divisor-is-not-a-filtered-length"],
+                      "a divisor in the statistics is the length of a collection built through %s: the average is taken over the samples that passed "
+                      "the filter, not over the samples it describes" % bad, c.line())
+    ctx.anchor("R05.12", "lengths used as divisors in compute_stats", n, 2)
+
+
 def r05_11(ctx, prog, crate):
     """Counter values are kept per kind and every access addresses the kind it was asked about: info()/info_mut() index
     the per-kind array by their own kind argument; counts/uses_input_counts/mean_count/get_input_count look up the kind
@@ -863,6 +921,7 @@ def run(ctx, prog, crate):
     r05_9(ctx, prog, crate)
     r05_10(ctx, prog, crate)
     r05_11(ctx, prog, crate)
+    r05_12(ctx, prog, crate)
     r05_7(ctx, prog, crate)
     r05_6(ctx, prog, crate)
     r05_5(ctx, prog, crate)
